@@ -16,6 +16,7 @@ from pyvc.values import *      # noqa
 from pyvc.runner import Unit, Canary
 from pyvc import builtins as B
 from .schema import SCHEMA
+from . import common as K
 from . import mainslices as MS
 from .C15 import lines_of
 
@@ -117,6 +118,59 @@ class _AlwaysMicro(ast.NodeTransformer):
 
 U_LD = Unit(P + '/load-writers', ['Impedance_Load.as_basic_input', 'Laplace_Load.as_basic_input'], t_loads, SCH,
             canaries=[Canary('laplace-factor-for-every-version', 'Laplace_Load.as_basic_input', _AlwaysMicro, [P + '/load-writers/laplace/s^1'])])
+
+
+def t_distributed_writer(eng):
+    """Distributed_Load.as_basic_input (skin-effect and insulation loads are written as one impedance load per pulse): every
+    line carries the pulse number and exactly the impedance the solver uses for that pulse, load.impedance (f, pulse) -- on a
+    grounded pulse too (BASIC and this program both apply a load on a ground pulse to conductor and image: the written value
+    is the load's, not half of it)."""
+    n = P + '/distributed-load-writer/'
+    grounded = eng.choose(2) == 1
+    ld = SObj('Skin_Effect_Load', label='ld')
+    pulses = []
+    for k in range(2):
+        pk = SObj('Pulse', label='p%d' % k)
+        pk.fields['ground'] = NDArr([bool(grounded and k == 0), False])
+        pulses.append(pk)
+    K.distinct(eng, pulses[0], pulses[1])
+    ld.fields['pulses'] = SList([('conc', pulses)])
+    mm = SObj('Mininec', label='m')
+    gc = SObj('Geo_Container', label='gc')
+    gc.fields['parent'] = mm
+    gobj = SObj('Geobj', label='g')
+    gobj.fields['parent'] = gc
+    ld.fields['geobj'] = gobj
+    eng.inline.add('Mininec.f')
+    z = {pulses[0].label: fresh_cx('z0'), pulses[1].label: fresh_cx('z1')}
+    by_pulse = lambda e, a, k: z[a[2].label]
+    for q in ('Skin_Effect_Load.impedance', 'Insulation_Load.impedance', '_Load.impedance', 'Distributed_Load.impedance'):
+        eng.summaries[q] = by_pulse
+    s = eng.call_qual('Distributed_Load.as_basic_input', [ld, MS.args_ns(eng, mininec_version=AStr([('lit', '12')])), False])
+    eng.cover('distributed-writer-%d' % grounded)
+    c = convs(s)
+    ok = len(c) == 6
+    eng.oblige(n + 'one-line-of-three-numbers-per-pulse', ok, detail=str(len(c)))
+    if not ok:
+        return
+    for k in range(2):
+        eng.oblige(n + 'pulse-number-and-the-impedance-the-solver-uses-for-that-pulse',
+                   bterm(b_and(num_eq(c[3 * k], r_add(eng.getfield(pulses[k], 'idx'), 1)),
+                               num_eq(c[3 * k + 1], z[pulses[k].label].re), num_eq(c[3 * k + 2], z[pulses[k].label].im))))
+
+
+class _HalfOnGroundPulses(ast.NodeTransformer):
+    def visit_For(self, node):
+        self.generic_visit(node)
+        if ast.unparse(node.iter).replace(' ', '') == 'self.pulses':
+            node.body.insert(1, ast.parse('if pulse.ground.any ():\n    z = z / 2').body[0])
+        return node
+
+
+U_DLW = Unit(P + '/distributed-load-writer', ['Distributed_Load.as_basic_input'], t_distributed_writer, SCH,
+             notes='two pulses of one load, the first grounded or not; impedances symbolic',
+             canaries=[Canary('half-the-load-on-ground-pulses', 'Distributed_Load.as_basic_input', _HalfOnGroundPulses,
+                              [P + '/distributed-load-writer/pulse-number'])])
 
 
 def t_wire_blocks(eng):
@@ -367,4 +421,4 @@ def t_endpoint(eng):
 
 U_EP = Unit(P + '/Mininec.endpoint', ['Mininec.endpoint'], t_endpoint, SCH)
 
-UNITS = [U_SRC, U_EINIT, U_LD, U_WB, U_MD, U_ORDER, U_EP]
+UNITS = [U_SRC, U_EINIT, U_LD, U_DLW, U_WB, U_MD, U_ORDER, U_EP]
